@@ -13,6 +13,12 @@ ASSUME = ("Trusted base: g++ 12.2 / clang++ 14 (front end = interpreter of the t
           "vf/model + harness/*.hh, which contains no Au code. ")
 
 CHECKS = {
+    "C18": dict(level="model_checking", technique="explicit-state BFS over unit expressions (C02 graph); each state's label read out and parsed by an independent grammar whose denotation is compared with the model",
+                text="For every state of the C02 expression graph plus scale-factor classes up to 2^64-1, rationals, named labelled/unlabelled units, "
+                     "library units and prefixes, and common(-point) units, the label (string, sizeof, strlen, NUL; under ASan) is read out, parsed with "
+                     "the documented grammar and its denotation (dimension, exact magnitude) compared with the model: a unit may never print a label that "
+                     "denotes a different unit. IToA/UIToA over |N|<=1100 plus decimal/binary boundaries, and operator<< over all 8/16-bit values.",
+                ref="DESIGN.md §6 C18"),
     "C06": dict(level="exploration", technique="exhaustive enumeration of a (rep pair x unit ratio) grid of programs through the C++ front end vs the documented predicate",
                 text="Every cell of an 11x11 rep grid times a ratio grid straddling each rep's 2147-threshold and maximum (plus reciprocals, rationals, "
                      "irrationals and factors no rep can hold) is compiled: type traits and an overload-resolution probe must evaluate without a hard "
